@@ -354,6 +354,51 @@ func render(m *lmap, p policy) []byte {
 	return []byte(w.sb.String())
 }
 
+// polFlags / runsField: the writer's inputs on the op line of c07.render (the Lean copy of
+// the writer must produce the same program byte for byte).
+func polFlags(p policy) string {
+	s := ""
+	if p.oneLine {
+		s += "o"
+	}
+	if p.tight {
+		s += "t"
+	}
+	if p.crlf {
+		s += "c"
+	}
+	if p.upper {
+		s += "u"
+	}
+	if s == "" {
+		s = "-"
+	}
+	return fmt.Sprintf("%s/%d", s, p.wrapArr)
+}
+
+func runsField(m *lmap) string {
+	if len(m.runs) == 0 {
+		return "~"
+	}
+	rs := make([]string, len(m.runs))
+	for i, r := range m.runs {
+		ts := make([]string, len(r.texts))
+		for j, t := range r.texts {
+			ts[j] = runesC(t)
+		}
+		rs[i] = fmt.Sprintf("%x:%s", r.lo, strings.Join(ts, "/"))
+	}
+	return strings.Join(rs, ";")
+}
+
+func entriesField(es []entry) string {
+	parts := make([]string, len(es))
+	for i, e := range es {
+		parts[i] = fmt.Sprintf("%x:%s", e.code, runesC(e.text))
+	}
+	return strings.Join(parts, ";")
+}
+
 func codeBytes(c uint32, width int) []byte {
 	b := make([]byte, width)
 	for i := width - 1; i >= 0; i-- {
@@ -465,6 +510,12 @@ func runCMaps(c *hx.Ctx) {
 			// correspondence ops on every program of small maps, on a rotating policy for large ones
 			ops := len(es) <= 40 || (i+pi)%len(policyForms) == 0
 			cmapOracle(c, prog, m.width, sample, p.name, ops)
+			if ops {
+				// the Lean copy of this writer (Model/CMapRender.lean), which the round-trip
+				// theorems quantify over, renders the same program and specifies the same map
+				c.Op(fmt.Sprintf("c07.render %s %s %d %s", polFlags(p), p.form, m.width, runsField(m)), hx.Hex(prog))
+				c.Op(fmt.Sprintf("c07.entries %s %s", p.form, runsField(m)), entriesField(m.entriesFor(p)))
+			}
 			c.Count("policy-" + p.name)
 			if p.crlf {
 				c.Count("eol-crlf")
